@@ -192,6 +192,10 @@ def table_update(R, cfg, b, old_tok, new_tok):
                         v = ('ref', env[rp['l']])
                     elif rp['p'] == ['deref'] and isinstance(env.get(rp['l']), tuple):
                         v = env[rp['l']]
+                elif rv['k'] == 'discr':
+                    src = env.get(rv['place']['l']) if not rv['place']['p'] else None
+                    if isinstance(src, tuple) and src[0] == 'ordering' and not src[2]:
+                        v = ('int', src[1])
                 elif rv['k'] == 'unop' and str(rv.get('op', '')).lower().startswith('not'):
                     x = val(rv['a'])
                     v = (not x) if isinstance(x, bool) else None
@@ -209,6 +213,15 @@ def table_update(R, cfg, b, old_tok, new_tok):
                 bb = t['target']
             elif t['k'] == 'switch':
                 x = val(t['discr'])
+                if isinstance(x, tuple) and x[0] == 'int':
+                    tg = t['otherwise']
+                    for v_, d_ in t['targets']:
+                        iv = int(v_)
+                        # the discriminant of Ordering is an i8: -1 is dumped as 255 (or as -1)
+                        if iv == x[1] or (x[1] == -1 and iv in (255, 18446744073709551615, 4294967295)):
+                            tg = d_
+                    bb = tg
+                    continue
                 if not isinstance(x, bool):
                     verdict = 'a branch does not depend on the order of the two ids only'
                     break
@@ -231,6 +244,11 @@ def table_update(R, cfg, b, old_tok, new_tok):
                     x0, x1 = [('old' if x == 'same' else x) for x in a]
                     r = sym_cmp(name, x0, x1, rel if 'same' not in a else '=')
                     cmps_seen.append(name)
+                elif tr in ('std::cmp::Ord', 'std::cmp::PartialOrd') and name in ('cmp', 'partial_cmp') and len(a) == 2 and all(x in ('old', 'new', 'same') for x in a):
+                    # Ordering::{Less = -1, Equal = 0, Greater = 1}; the discriminant is what a `match` switches on
+                    x0, x1 = [('old' if x == 'same' else x) for x in a]
+                    rr = '=' if ('same' in a or x0 == x1) else (rel if (x0, x1) == ('new', 'old') else {'<': '>', '=': '=', '>': '<'}[rel])
+                    r = ('ordering', {'<': -1, '=': 0, '>': 1}[rr], name == 'partial_cmp')
                 elif tr == 'std::cmp::Ord' and name in ('max', 'min') and len(a) == 2 and all(x in ('old', 'new', 'same') for x in a):
                     r = bigger(a[0] if a[0] != 'same' else 'old', a[1] if a[1] != 'same' else 'old', rel, name == 'max')
                 elif fn.get('def', '').startswith('core::panicking') or t.get('target') is None:
@@ -346,6 +364,22 @@ def prim(R, cfg, F, path, atomic_name, want_args, orderings, wraps=False):
             c.loc(), callee=c.callee.best, ordering=sorted(ordv))
 
 
+def value_on_path(p, op, depth=0):
+    """constant text of an operand as seen along one path (the most recent assignment on that path wins)"""
+    if op['k'] == 'const':
+        return op.get('text')
+    if op['k'] not in ('copy', 'move') or op['place']['p'] or depth > 6:
+        return None
+    l = op['place']['l']
+    last = None
+    for bb, j, s in p.stmts():
+        if s['place']['l'] == l and not s['place']['p']:
+            last = s
+    if last is None or last['rv']['k'] != 'use':
+        return None
+    return value_on_path(p, last['rv']['op'], depth + 1)
+
+
 def watcher(R, cfg, b):
     loads = [c for c in b.calls() if c.callee and c.callee.best == 'entry::AtomicReloadId::load']
     upd = [c for c in b.calls() if c.callee and c.callee.best == 'entry::ReloadId::update']
@@ -353,11 +387,14 @@ def watcher(R, cfg, b):
         R.bad(cfg, b.path, 'shape', 'reloaded() must be last_reload_id.update(reload_id.load())', b.loc())
         return
     u, ld = upd[0], loads[0]
-    a0 = b.access_path(u.args[0])
-    a1 = b.access_path(u.args[1])
-    la = b.access_path(ld.args[0])
-    ok = (a1 == ['call@bb%d' % ld.bb] and a0 is not None and a0[-2:] == ['last_reload_id', '&'] and a0[0] == 'arg1'
-          and la is not None and la[0] == 'arg1' and 'reload_id' in la and u.dest['l'] == 0)
+    import common
+    a0 = common.strip_refs(common.arg_path(u, 0))
+    a1 = common.arg_path(u, 1)
+    la = common.strip_refs(common.arg_path(ld, 0))
+    # (the result may pass through the return slot of a helper written in place before reaching _0)
+    ret_ok = u.dest['l'] == 0 or ('call', u.bb) in b.origins(0) or any(s_['place']['l'] == 0 and s_['rv']['k'] == 'use' and b.access_path(s_['rv']['op'], at=bb_) == ['call@bb%d' % u.bb] for bb_, _, s_ in b.assigns())
+    ok = ((a1 == ['call@bb%d' % ld.bb] or b.origins(u.args[1]) == {('call', ld.bb)}) and bool(a0) and a0[-1:] == ['last_reload_id'] and a0[0] == 'arg1'
+          and bool(la) and la[0] == 'arg1' and 'reload_id' in la and ret_ok)
     R.check(ok, cfg, b.path, 'reloaded=last.update(id.load())',
             'ReloadWatcher::reloaded must return last_reload_id.update(reload_id.load()); got update(%s, %s), load(%s)' % (a0, a1, la), u.loc())
     # the None arm returns false
@@ -366,5 +403,6 @@ def watcher(R, cfg, b):
         if u.bb not in p.blocks:
             rets = [(bb, s) for bb, _, s in p.stmts() if s['place']['l'] == 0]
             okn = len(rets) == 1 and rets[0][1]['rv']['k'] == 'use' and \
-                (rets[0][1]['rv']['op'].get('text') == 'false' or b.access_path(rets[0][1]['rv']['op'], at=rets[0][0]) == ['const:false'])
+                (rets[0][1]['rv']['op'].get('text') == 'false' or b.access_path(rets[0][1]['rv']['op'], at=rets[0][0]) == ['const:false']
+                 or value_on_path(p, rets[0][1]['rv']['op']) == 'false')
             R.check(okn, cfg, b.path, 'no-watcher-arm=false', 'a watcher without reload id must report false', b.loc())
